@@ -10,7 +10,7 @@ regenerated   : translate/t_c24_gates.py turns the source of require_all.authent
                 constructor guards and except classes, ProofError / AuthFailure bases into coq/gen/G_Gates.v;
                 tie/T_Gates.v proves them equal to the modelled data and restates the theorems over them.
 correspondence: the real proxy_proof_gate / require_all / chain_authenticate on the exhaustive grid
-                {allow, require} x 24 header classes (real minted tokens, injected clock, per-case replay cache)
+                {allow, require} x 37 header classes (real minted tokens, injected clock, per-case replay cache)
                 x 19 inner-authenticator behaviours with an invocation log, plus custom gates, constructor grids,
                 chains up to length 3, and the same requests through the Falcon app (AuthContext the method sees).
 
@@ -160,6 +160,16 @@ def run(ctx: Any) -> None:  # noqa: C901 - one linear script
         i = tok.rindex(".") + 1  # first character of the MAC (the last one carries two unused bits)
         return tok[:i] + ("A" if tok[i] != "A" else "B") + tok[i + 1 :]
 
+    def sub_field(field: int, pos: int, ch: str) -> str:
+        """a freshly minted valid token with one character of one '.'-separated field replaced"""
+        parts = mint().split(".")
+        f = list(parts[field])
+        f[pos] = ch
+        parts[field] = "".join(f)
+        return ".".join(parts)
+
+    TRICKY = "\u00b2\u00b3\u00b9\u00bc\u00aa\u00ba\u00b5\u00e9\u00df\u00fc\u00a0\u0085\u00ad\u0663\u06f3\u0967\uff13\uff41\u2460\u2170\u0131\u212a"
+
     # header classes: name -> (Coq hdr, maker() -> header value | None, presend?)
     F = "HToken (Some {})".format
     H: list[tuple[str, str, Any, bool]] = [
@@ -176,6 +186,20 @@ def run(ctx: Any) -> None:  # noqa: C901 - one linear script
         ("malformed-nonce-short", F("RMalformed"), lambda: (lambda p: ".".join(p[:3] + [p[3][:-1]] + p[4:]))(mint().split(".")), False),
         ("malformed-mac-short", F("RMalformed"), lambda: mint()[:-1], False),
         ("malformed-garbage", F("RMalformed"), lambda: "not a proof", False),
+        # a real token with ONE field character replaced by a look-alike: str.isdigit()/isalnum()-true but outside the ASCII classes
+        ("malformed-ts-superscript-2", F("RMalformed"), lambda: sub_field(2, -1, "\u00b2"), False),
+        ("malformed-ts-superscript-3-first", F("RMalformed"), lambda: sub_field(2, 0, "\u00b3"), False),
+        ("malformed-ts-superscript-1-mid", F("RMalformed"), lambda: sub_field(2, 4, "\u00b9"), False),
+        ("malformed-ts-arabic-indic", F("RMalformed"), lambda: sub_field(2, -1, "\u0663"), False),
+        ("malformed-ts-fullwidth", F("RMalformed"), lambda: sub_field(2, -1, "\uff13"), False),
+        ("malformed-ts-circled-digit", F("RMalformed"), lambda: sub_field(2, -1, "\u2460"), False),
+        ("malformed-kid-latin1-letter", F("RMalformed"), lambda: sub_field(1, 1, "\u00e9"), False),
+        ("malformed-kid-sharp-s", F("RMalformed"), lambda: sub_field(1, -1, "\u00df"), False),
+        ("malformed-nonce-latin1-letter", F("RMalformed"), lambda: sub_field(3, 5, "\u00e9"), False),
+        ("malformed-mac-latin1-letter", F("RMalformed"), lambda: sub_field(4, 7, "\u00fc"), False),
+        ("malformed-mac-micro-sign", F("RMalformed"), lambda: sub_field(4, -1, "\u00b5"), False),
+        ("malformed-version-fullwidth", F("RMalformed"), lambda: sub_field(0, 0, "\uff56"), False),
+        ("malformed-ts-nbsp", F("RMalformed"), lambda: sub_field(2, 3, "\u00a0"), False),
         ("unknown-kid", F("RUnknownKid"), lambda: mint(kid="someone-else"), False),
         ("expired-by-1", F("RExpired"), lambda: mint(now=NOW - SKEW - 1), False),
         ("expired-epoch", F("RExpired"), lambda: mint(now=0), False),
@@ -339,7 +363,8 @@ def run(ctx: Any) -> None:  # noqa: C901 - one linear script
             return None, e
 
     ctx.rule = (
-        "exhaustive grid: gate mode {allow, require} x header class (24: absent, empty, repeated, 8 malformed shapes, unknown kid, "
+        "exhaustive grid: gate mode {allow, require} x header class (37: absent, empty, repeated, 8 malformed shapes, 13 real tokens with one field character replaced by a Latin-1 / Unicode "
+        "look-alike (superscript / Arabic-Indic / fullwidth digits in ts, non-ASCII letters in kid / nonce / mac / version), unknown kid, "
         "expired, not-yet-valid, 3 bad-mac, replayed, 3 valid incl. both window edges; real minted tokens, injected clock, fresh "
         "replay cache per case) x inner authenticator (none + 19 behaviours: 7 accepted contexts, 6 AuthFailure codes, 6 other "
         "exception classes); custom PreconditionGates (claims / exception grid) x inner; constructor grids (gate at every position of "
@@ -359,6 +384,9 @@ def run(ctx: Any) -> None:  # noqa: C901 - one linear script
         add_case(f"CaseGateCtor {MODE_COQ[mode]}", obs, {"kind": "gate-ctor", "mode": mode})
         ctx.case(["gate-ctor", mode], nontrivial=False)
 
+    def is_proof_error(e: BaseException) -> bool:
+        return isinstance(e, ProofError) and isinstance(e, PermissionError) and not isinstance(e, ValueError)
+
     def header_value(hname: str, maker: Any, presend: bool, gate: Any) -> str | None:
         value = maker()
         if presend:
@@ -376,11 +404,40 @@ def run(ctx: Any) -> None:  # noqa: C901 - one linear script
             obs = [41, *enc_exn(e)] if e is not None else [40, *(g or [99])]
             add_case(f"CaseGate {MODE_COQ[mode]} ({hcoq})", obs, {"kind": "gate", "mode": mode, "header_class": hname, "header": value})
             ctx.case(["gate", mode, hname])
+            if e is not None and not is_proof_error(e):
+                ctx.violation("gate-raised-non-proof-error", f"the {mode}-mode gate raised {type(e).__name__}, not a ProofError-derived PermissionError",
+                              {"mode": mode, "header_class": hname, "header": value, "exception": repr(e)})
             if mode == "allow" and e is not None:
                 ctx.violation("allow-gate-denies", "the allow-mode gate raised", {"mode": mode, "header_class": hname, "header": value, "exception": repr(e)})
             if mode == "require" and hname not in VALID and not (isinstance(e, PermissionError) and not isinstance(e, ValueError)):
                 ctx.violation("require-unproven-not-refused", "the require-mode gate did not raise a PermissionError for an unproven request",
                               {"mode": mode, "header_class": hname, "header": value, "result": repr(r), "exception": repr(e)})
+
+    # seeded look-alike substitutions anywhere in a real token (separators included): always malformed, never anything but a ProofError
+    FUZZ: list[tuple[str, str]] = []
+    for k in range(300 if thorough else 60):
+        tok = list(mint())
+        pos = rng.randrange(len(tok))
+        ch = rng.choice(TRICKY)
+        tok[pos] = ch
+        FUZZ.append((f"fuzz-{k}-pos{pos}-U+{ord(ch):04X}", "".join(tok)))
+    for mode in ("allow", "require"):
+        for fname, value in FUZZ:
+            log = []
+            gate = make_gate(mode, log)
+            r, e = call(gate, make_req(value))
+            g = enc_gclaims(r) if e is None else None
+            obs = [41, *enc_exn(e)] if e is not None else [40, *(g or [99])]
+            add_case(f"CaseGate {MODE_COQ[mode]} ({F('RMalformed')})", obs, {"kind": "gate", "mode": mode, "header_class": fname, "header": value, "exception": repr(e)})
+            ctx.case(["gate-fuzz", mode, fname])
+            ctx.count("lookalike_fuzz")
+            if e is not None and not is_proof_error(e):
+                ctx.violation("gate-raised-non-proof-error", f"the {mode}-mode gate raised {type(e).__name__}, not a ProofError-derived PermissionError",
+                              {"mode": mode, "header_class": fname, "header": value, "exception": repr(e)})
+            elif mode == "allow" and e is not None:
+                ctx.violation("allow-gate-denies", "the allow-mode gate raised", {"mode": mode, "header_class": fname, "header": value, "exception": repr(e)})
+            elif mode == "require" and e is None:
+                ctx.violation("require-unproven-not-refused", "the require-mode gate did not raise for an unproven request", {"mode": mode, "header_class": fname, "header": value, "result": repr(r)})
 
     # ------------------------------------------------------------------ 2. require_all(proxy_proof_gate, inner): the grid of the property
     def same_modulo_gate(c: Any, c0: Any) -> bool:
@@ -427,6 +484,8 @@ def run(ctx: Any) -> None:  # noqa: C901 - one linear script
                         same = (e is e0) if e0 is not None else (isinstance(r, AuthContext) and same_modulo_gate(r, r0))
                         if not same or inner_calls != [("inner", ident)]:
                             ctx.violation("allow-unproven-differs-from-ungated", "allow-mode unproven request is not treated as the ungated worker treats it", repl)
+                if e is not None and not inner_calls and not is_proof_error(e):
+                    ctx.violation("gate-raised-non-proof-error", f"require_all: the {mode}-mode gate raised {type(e).__name__}, not a ProofError-derived PermissionError", repl)
                 if mode == "require" and not proven:
                     if inner_calls:
                         ctx.violation("require-inner-consulted-after-gate-failure", "inner authenticator was invoked although the gate failed", repl)
@@ -508,7 +567,10 @@ def run(ctx: Any) -> None:  # noqa: C901 - one linear script
             add_case(term, enc_out(r, e, log), {"kind": "chain", "members": [c[0] for c in combo], "result": repr(r), "exception": repr(e), "log": list(log)})
             ctx.case(["chain", [c[0] for c in combo]])
 
-    hsub = [h for h in H if h[0] in ("absent", "empty", "multi-short", "malformed-garbage", "unknown-kid", "expired-by-1", "not-yet-valid", "bad-mac-tampered", "replayed", "valid")]
+    hsub = [h for h in H if h[0] in ("absent", "empty", "multi-short", "malformed-garbage", "unknown-kid", "expired-by-1", "not-yet-valid", "bad-mac-tampered", "replayed", "valid",
+                                       "malformed-ts-superscript-2", "malformed-ts-superscript-3-first", "malformed-ts-arabic-indic", "malformed-ts-fullwidth",
+                                       "malformed-kid-latin1-letter", "malformed-nonce-latin1-letter", "malformed-mac-latin1-letter")]
+    hsub += [(n, F("RMalformed"), (lambda v=v: v), False) for n, v in FUZZ[: (60 if thorough else 12)]]
     a_specs = [s for s in inner_specs if s[0] in ("accept-user", "accept-anonymous", "reject-invalid_credential", "raise-PermissionError", "raise-RuntimeError")]
     b_specs = [s for s in inner_specs if s[0] in ("accept-no-claims", "reject-missing_credential", "raise-ValueError", "raise-RuntimeError")]
     for mode, (hname, hcoq, maker, presend), (an, ao, _), (bn, bo, _) in itertools.product(("allow", "require"), hsub, a_specs, b_specs):
@@ -521,8 +583,13 @@ def run(ctx: Any) -> None:  # noqa: C901 - one linear script
         repl = {"kind": "chain(require_all(gate,a),b)", "mode": mode, "header_class": hname, "header": value, "a": an, "b": bn, "result": repr(r), "exception": repr(e), "log": list(log)}
         add_case(f"CaseChainRA {MODE_COQ[mode]} ({hcoq}) ({cN(1)}, {coq_ires(ao)}) ({cN(2)}, {coq_ires(bo)})", enc_out(r, e, log), repl)
         ctx.case(["chain-ra", mode, hname, an, bn])
-        if mode == "require" and hname not in VALID and (log != ["gate"] or not isinstance(e, PermissionError) or isinstance(e, ValueError)):
-            ctx.violation("gate-failure-swallowed-by-chain", "a failed required gate did not end chain(require_all(gate, a), b)", repl)
+        if mode == "require" and hname not in VALID:
+            if any(x != "gate" for x in log):
+                ctx.violation("chain-member-consulted-after-require-gate-failure", "chain(require_all(require-gate, a), b): a member was consulted although the gate failed for this request", repl)
+            elif log != ["gate"] or not isinstance(e, PermissionError) or isinstance(e, ValueError):
+                ctx.violation("gate-failure-swallowed-by-chain", "a failed required gate did not end chain(require_all(gate, a), b)", repl)
+        if mode == "allow" and hname not in VALID and log[:2] != ["gate", ("inner", 1)]:
+            ctx.violation("allow-gate-denies", "chain(require_all(allow-gate, a), b): the allow-mode gate kept an unproven request from reaching a", repl)
 
     # ------------------------------------------------------------------ 4b. several require_all wrappers around DISTINCT gates, ONE request
     # chain(require_all(gate_1, inner_1), ..., require_all(gate_n, inner_n)): every wrapper must evaluate ITS OWN gate for
@@ -550,6 +617,7 @@ def run(ctx: Any) -> None:  # noqa: C901 - one linear script
         "valid-for-A": (lambda: mint(), {"A": "HToken None", "B": F("RUnknownKid")}),
         "valid-for-B": (lambda: mint(secret=OTHER_SECRET, kid=KID_B), {"A": F("RUnknownKid"), "B": "HToken None"}),
         "garbage": (lambda: "not a proof", {"A": F("RMalformed"), "B": F("RMalformed")}),
+        "ts-superscript": (lambda: sub_field(2, -1, "\u00b2"), {"A": F("RMalformed"), "B": F("RMalformed")}),
     }
     GATE_KINDS = [("allow", "A"), ("require", "A"), ("allow", "B"), ("require", "B")]
     W_INNER: list[tuple[str, Any]] = [("accept", None), ("reject-invalid", AuthFailure(AuthReason.INVALID_CREDENTIAL, "no")), ("raise-ValueError", ValueError("v")), ("no-inner", "NONE")]
@@ -640,7 +708,8 @@ def run(ctx: Any) -> None:  # noqa: C901 - one linear script
     server = RpcServer(C24Service, _C24Impl())
     body = request_bytes("whoami", pa.schema([]), None)
     http_inner = [s for s in inner_specs if s[0] in ("none", "accept-user", "accept-anonymous", "accept-spoofed-gate-claims", "reject-invalid_credential", "raise-PermissionError")]
-    http_h = H if thorough else [h for h in H if h[0] in ("absent", "empty", "multi-valid", "malformed-garbage", "unknown-kid", "expired-by-1", "not-yet-valid", "bad-mac-other-secret", "replayed", "valid", "valid-oldest")]
+    http_h = H if thorough else [h for h in H if h[0] in ("absent", "empty", "multi-valid", "malformed-garbage", "unknown-kid", "expired-by-1", "not-yet-valid", "bad-mac-other-secret", "replayed", "valid", "valid-oldest",
+                                                   "malformed-ts-superscript-2", "malformed-kid-latin1-letter")]
     for mode, (hname, hcoq, maker, presend), (iname, outcome, ident) in itertools.product(("allow", "require"), http_h, http_inner):
         log = []
         gate = make_gate(mode, log)
